@@ -1,5 +1,5 @@
 (* correspondence glue for C16: one constructor per decoder entry point *)
-From V Require Export Base.Hex Store.Codec Store.AppMeta.
+From V Require Export Base.Hex Store.Codec Store.AppMeta Wire.PgMsg.
 
 Definition txmd_eqb (a b : txmd) : bool :=
   opt_eqb N.eqb (md_trunc a) (md_trunc b) && opt_eqb bytes_eqb (md_extra a) (md_extra b).
@@ -14,6 +14,50 @@ Definition txhdr_eqb (a b : txhdr) : bool :=
   (h_nentries a =? h_nentries b) && bytes_eqb (h_eh a) (h_eh b) && (h_bltxid a =? h_bltxid b) &&
   bytes_eqb (h_blroot a) (h_blroot b).
 
+(* ---------------- PostgreSQL wire messages ---------------- *)
+(* switch to true when fixes/C16-pgsql-bind-param-length.diff is committed in /repo *)
+Definition pg_bind_is_fixed : bool := false.
+
+Definition z_eqb := Z.eqb.
+(* a parameter value is compared as (bytes without trailing zeroes, total length) *)
+Fixpoint strip0 (l : bytes) : bytes :=
+  match l with
+  | [] => []
+  | x :: r => match strip0 r with
+              | [] => if x =? 0 then [] else [x]
+              | r' => x :: r'
+              end
+  end.
+Definition pval_eqb (a b : pval) : bool :=
+  match a, b with
+  | PNull, PNull => true
+  | PText d p, PText d' p' | PBin d p, PBin d' p' =>
+      bytes_eqb (strip0 d) (strip0 d') && (len d + p =? len d' + p')
+  | _, _ => false
+  end.
+Definition bindmsg_eqb (a b : bindmsg) : bool :=
+  bytes_eqb (b_portal a) (b_portal b) && bytes_eqb (b_stmt a) (b_stmt b) &&
+  list_eqb pval_eqb (b_params a) (b_params b) && list_eqb Z.eqb (b_rcodes a) (b_rcodes b).
+Definition parsemsg_eqb (a b : parsemsg) : bool :=
+  bytes_eqb (p_name a) (p_name b) && bytes_eqb (p_query a) (p_query b) &&
+  Z.eqb (p_count a) (p_count b) && list_eqb Z.eqb (p_oids a) (p_oids b).
+Definition pgmsg_eqb (a b : pgmsg) : bool :=
+  match a, b with
+  | MPassword x, MPassword y | MQuery x, MQuery y | MCopyData x, MCopyData y | MCopyFail x, MCopyFail y => bytes_eqb x y
+  | MTerminate, MTerminate | MSync, MSync | MFlush, MFlush | MCopyDone, MCopyDone => true
+  | MParse x, MParse y => parsemsg_eqb x y
+  | MBind x, MBind y => bindmsg_eqb x y
+  | MDescribe t n, MDescribe t' n' => (t =? t') && bytes_eqb n n'
+  | MExecute n r, MExecute n' r' => bytes_eqb n n' && Z.eqb r r'
+  | _, _ => false
+  end.
+(* the bytes Go's allocator handed out during the call (runtime.MemStats.TotalAlloc) stay within a
+   constant factor of the model's measure: size-class rounding, amortised append growth, small
+   bookkeeping objects (readers, result structs, harness goroutine) *)
+Definition alloc_ok (model observed : N) : bool := observed <=? 4 * model + 4096.
+Definition frame_eqb (a b : N * bytes * bytes) : bool :=
+  let '(t, p, r) := a in let '(t', p', r') := b in (t =? t') && bytes_eqb p p' && bytes_eqb r r'.
+
 Inductive case :=
 | CTxMd (inp : bytes) (out : res txmd)
 | CKvMd (inp : bytes) (out : res kvmd)
@@ -22,7 +66,12 @@ Inductive case :=
    (precommitted id, committed id) change *)
 | CRepl (inp : bytes) (panicked errored changed : bool)
 (* appendable.NewMetadata(inp) then Get / GetInt / GetBool of a key: panicked?, what came back *)
-| CAppMd (inp key : bytes) (panicked : bool) (got : option bytes) (gotint : option N) (gotbool : option bool).
+| CAppMd (inp key : bytes) (panicked : bool) (got : option bytes) (gotint : option N) (gotbool : option bool)
+(* session.parseRawMessage(t, payload) with pgmeta.MaxMsgSize = maxmsg: outcome, decoded message,
+   bytes allocated during the call *)
+| CPgMsg (maxmsg t : N) (payload : bytes) (out : res pgmsg) (allocated : N)
+(* messageReader.ReadRawMessage on a connection delivering conn then EOF: (type, payload, unread rest) *)
+| CPgFrame (maxmsg : N) (conn : bytes) (out : res (N * bytes * bytes)) (allocated : N).
 
 Definition case_ok (c : case) : bool :=
   match c with
@@ -38,5 +87,11 @@ Definition case_ok (c : case) : bool :=
       opt_eqb bytes_eqb (appmd_get i k) got &&
       res_eqb (opt_eqb N.eqb) (appmd_get_int i k) (Ok gi) &&
       res_eqb (opt_eqb Bool.eqb) (appmd_get_bool i k) (Ok gb)
+  | CPgMsg mx t p o a =>
+      let m := pg_dispatch pg_bind_is_fixed mx t p in
+      res_eqb pgmsg_eqb (fst m) o && alloc_ok (snd m) a
+  | CPgFrame mx c o a =>
+      let m := raw_read mx c in
+      res_eqb frame_eqb (fst m) o && alloc_ok (snd m) a
   end.
 
